@@ -146,7 +146,7 @@ def domain(updater):
         dicts = [{'a': {'b': {'x': 1}}}, {'a': {'b': {'y': 2}}},
                  {}, {'a': 1}, {'a': 1, 'b': 2}, {'a': {'b': 1}},
                  {'a': {'b': 1, 'c': 2}, 'b': 3}, {'c': {'a': 0}},
-                 {'a': None}, {'b': {'a': {'c': 1}}}]
+                 {'a': None}, {'b': {'a': {'c': 1}}}, {'a': {'b': None}}]
         for v in dicts:
             out.append((lambda v=v: copy.deepcopy(v),
                         [lambda u=u: copy.deepcopy(u) for u in dicts]))
@@ -439,7 +439,11 @@ REDUCE_FROM = {
 
 
 def reduce_case(vals, t0, tupd, init, frm, order, route, acc):
-    label = {'updater': f'reduce:{tupd}', 'vals': vals, 'total': t0,
+    # tupd 'set>accumulate': the variable declares set, the _reduce update
+    # itself names the updater accumulate (and vice versa)
+    tupd, _, named = tupd.partition('>')
+    label = {'updater': f'reduce:{tupd}' + (f'>{named}' if named else ''),
+             'vals': vals, 'total': t0,
              'initial': init, 'from': frm, 'order': order, 'route': route}
     V = lambda rule, fp, msg: acc.violate(  # noqa
         fw.violation(rule, fp, msg, label))
@@ -459,6 +463,8 @@ def reduce_case(vals, t0, tupd, init, frm, order, route, acc):
 
     red = {'total': {'_reduce': {'from': REDUCE_FROM[frm][0],
                                  'initial': init, 'reducer': reducer}}}
+    if named:
+        red['total']['_updater'] = named
     bump = {'box': {'a': 1, 'deep': {'c': 2}}}
     script = {'reduce': [red], 'bump-reduce': [bump, red],
               'reduce-bump': [red, bump]}[order]
@@ -473,7 +479,8 @@ def reduce_case(vals, t0, tupd, init, frm, order, route, acc):
                         'deep': cur['c'],
                         'all': cur['a'] + cur['b'] + cur['c']
                         + cur['total']}[frm]
-            cur['total'] = r if tupd == 'set' else cur['total'] + r
+            cur['total'] = r if (named or tupd) == 'set' \
+                else cur['total'] + r
     want = {'box': {'a': cur['a'], 'b': cur['b'], 'deep': {'c': cur['c']}},
             'total': cur['total']}
     try:
@@ -512,7 +519,8 @@ def reduce_case(vals, t0, tupd, init, frm, order, route, acc):
 def reduce_jobs():
     return list(itertools.product(
         itertools.product((0, 2.5), repeat=3), (0, 5),
-        ('set', 'accumulate'), (0, 10), ('box', 'deep', 'all'),
+        ('set', 'accumulate', 'set>accumulate', 'accumulate>set'),
+        (0, 10), ('box', 'deep', 'all'),
         ('reduce', 'bump-reduce', 'reduce-bump'), ('store', 'engine')))
 
 
@@ -654,7 +662,7 @@ def replay(case):
     acc = fw.Acc()
     if str(case['updater']).startswith('reduce:'):
         reduce_case(tuple(case['vals']), case['total'],
-                    case['updater'].split(':')[1], case['initial'],
+                    case['updater'].split(':', 1)[1], case['initial'],
                     case['from'], case['order'], case['route'], acc)
         return [v for exs in acc.viol_examples.values() for v in exs]
     for j in jobs(_C()):
@@ -671,4 +679,7 @@ RULE += (
     ' Engine route also through LEAF ports (the port is the variable, the update is the bare value - falsy values included).')
 
 RULE += (
-    ' The _reduce update form: a reduction (sum of the leaves, with an initial value) over the subtree named by from - a sibling branch, a nested branch, or the parent that holds the variable itself - handed to a set / accumulate variable, alone, after and before an ordinary update of the reduced leaves, through Store.apply_update and through a process in an Engine; the reducer is called exactly once on every node of the subtree.')
+    ' The _reduce update form: a reduction (sum of the leaves, with an initial value) over the subtree named by from - a sibling branch, a nested branch, or the parent that holds the variable itself - handed to a set / accumulate variable (also with the update itself naming the other updater), alone, after and before an ordinary update of the reduced leaves, through Store.apply_update and through a process in an Engine; the reducer is called exactly once on every node of the subtree.')
+
+RULE += (
+    ' The merge domain includes an update that sets a NESTED key holding a dictionary to None.')
